@@ -21,7 +21,7 @@ func TestMain(m *testing.M) { pbt.RunMain(m) }
 var profile = plain.Profile{
 	Name:       "c08",
 	OpKinds:    []string{"set", "set", "set", "set", "set", "del", "get", "maint", "maint", "maint", "maint", "reopen"},
-	MaintKinds: []string{"rotate", "rotate", "compact", "once", "rewrite", "rewrite", "rewrite", "rewrite", "gc", "gc"},
+	MaintKinds: []string{"rotate", "rotate", "drain", "once", "rewrite", "rewrite", "rewrite", "rewrite", "gc", "gc"},
 	ValueSizes: []int{0, 31, 32, 33, 33, 100, 1000, 1000, 9000, 30000, 70000},
 	ForceVlog:  true,
 	MaxOps:     60,
@@ -33,7 +33,7 @@ func gen(t *rapid.T) plain.Case { return plain.Gen(t, profile) }
 var txProfile = txm.Profile{
 	Name:       "c08",
 	OpKinds:    []string{"begin", "set", "set", "set", "set", "del", "commit", "commit", "commit", "get", "get", "iter", "maint", "maint", "maint", "reopen"},
-	MaintKinds: []string{"rotate", "rotate", "compact", "once", "rewrite", "rewrite", "rewrite", "gc", "gc"},
+	MaintKinds: []string{"rotate", "rotate", "drain", "once", "rewrite", "rewrite", "rewrite", "gc", "gc"},
 	ValueSizes: []int{31, 32, 33, 100, 1000, 9000, 30000, 40000},
 	MaxOps:     60,
 	MaxKeys:    4,
